@@ -148,7 +148,7 @@ def resZ : Res → String
 def handle : List String → String
   | "mem" :: ts => match (do let (r, ts) ← pReg 8 ts; let (ps, ts) ← pList pPt ts; pure (r, ps, ts)) with
     | some (r, ps, []) =>
-      s!"ok {bits (ps.map r.mem)} {bits (ps.map (containsPoint F r))} {bits (ps.map (memCode F r))}"
+      s!"ok {bits (ps.map r.mem)} {bits (ps.map (containsPoint F r))} {bits (ps.map (memCode F r))} {bits (ps.map (trueContains F r))}"
     | _ => "bad-op"
   | "near" :: ts => match (do let (m, ts) ← pRat ts; let (r, ts) ← pReg 8 ts; let (ps, ts) ← pList pPt ts; pure (m, r, ps, ts)) with
     | some (m, r, ps, []) => s!"ok {bits (ps.map (near m r))}"
